@@ -115,8 +115,11 @@ func ZZH_C10_only_changes() {
 	l := zzNewLedger(store, nil)
 	v := []byte{zz.U8("v")}
 	l.SetState(zzAddrs[0], []byte("a"), v, nil)
+	// a contract account (balance, nonce, code) committed in the same earlier block
+	l.SetBalance(zzAddrs[1], big.NewInt(5))
+	l.SetCode(zzAddrs[1], []byte{zz.U8("code")})
 	zzCommit(l, 1)
-	mode := zz.Choice("mode", 3)
+	mode := zz.Choice("mode", 4)
 	w := []byte{zz.U8("w")}
 	run := func(variant int) []byte {
 		s := store.Clone()
@@ -129,6 +132,13 @@ func ZZH_C10_only_changes() {
 		case 1: // read before write vs write only (SetState)
 			if variant == 1 {
 				x.GetState(zzAddrs[0], []byte("a"))
+			}
+			x.SetState(zzAddrs[0], []byte("a"), w, nil)
+		case 3: // the contract account is only read (code, balance, a storage key) on a cold ledger vs not touched
+			if variant == 1 {
+				_ = x.GetCode(zzAddrs[1])
+				_ = x.GetBalance(zzAddrs[1])
+				_, _ = x.GetState(zzAddrs[1], []byte("b"))
 			}
 			x.SetState(zzAddrs[0], []byte("a"), w, nil)
 		case 2: // read before AddState vs AddState only
